@@ -454,6 +454,8 @@ PROVED in the third stage (this file, `Props/C07Doc.lean`, `Props/C07Lead.lean`;
     StringValue semantics, whenever every escape denotes a scalar value);
   * block strings: `parse_render_block_string_raw` (for every body the grammar reads to its end the parsed value is EXACTLY the
     raw text between the delimiters — open finding t characterised by a theorem) and `block_string_value_spec_iff`;
+    both literal forms in the two contexts where the grammar has strings — as a `Value` (through `build_value`) and as a
+    `Description` — `render_parse_string_value_general`, `render_parse_block_string_value_raw` (`Props/C07Value.lean`);
   * the optional leading `&` / `|`: `parse_render_type_system_document_lead` (+ `_erase`, `Props/C07Lead.lean`);
   * the bare `interface I` / `extend interface I`: `parse_render_type_system_document_full` (+ `_erase`): the former limit of
     the proof is gone — `ImplementsInterfaces?` is shown to fail on the WORD that follows (never `implements`: every item
